@@ -26,6 +26,7 @@ type Op struct {
 	Opaque uint32   `json:"opq,omitempty"`
 	Quiet  bool     `json:"quiet,omitempty"` // binary setq/addq/...
 	Raw    []byte   `json:"raw,omitempty"`
+	SameOpq bool    `json:"same_opq,omitempty"` // handler-level get: every key carries Opaque (as the text parser produces)
 	KeyB   []byte   `json:"keyb,omitempty"`  // binary-safe key (overrides Key)
 	KeysB  [][]byte `json:"keysb,omitempty"` // binary-safe keys (override Keys)
 }
